@@ -287,13 +287,17 @@ def paths(cfg, start, stop, env0=None, transfer=None, max_visits=2, limit=50000,
             v = eval_guard(node.test, val)
             if v is not None:
                 succ = [(l, n) for l, n in succ if l is v or l not in (True, False)]
+        if node.kind == 'loop' and visits.get(node.id, 0) > max_visits:
+            # the body has been entered max_visits times: only leaving the loop is allowed now
+            succ = [(l, n) for l, n in succ if l is not True]
         for lab, n in succ:
             c = visits.get(n.id, 0)
-            if n.kind == 'loop' and c >= max_visits:
-                if emit_blocked:
-                    out.append((list(path) + [n], env if lab not in (True, False) else env))
+            if n.kind == 'loop' and c >= max_visits + 1:
                 continue
-            if c >= max_visits + 1:
+            if n.kind == 'loop' and c >= max_visits and emit_blocked:
+                out.append((list(path) + [n], env))
+                continue
+            if c >= max_visits + 2:
                 continue
             v2 = dict(visits)
             v2[n.id] = c + 1
